@@ -112,7 +112,9 @@ impl<BS, W> AlgorithmName for Toy<BS, W> {
 
 impl<BS, W> fmt::Debug for Toy<BS, W> {
     fn fmt(&self, f: &mut fmt::Formatter<'_>) -> fmt::Result {
-        f.write_str("Toy { ... }")
+        // deliberately NOT opaque (like a plain `#[derive(Debug)]`): a mode whose Debug forwards to the cipher's
+        // Debug instead of its algorithm name becomes key-dependent
+        write!(f, "Toy {{ key: {:?} }}", self.key)
     }
 }
 
